@@ -38,16 +38,17 @@ Theorem C14_foreach_var_gone : forall var (d : list (string * node)), sorted_key
 Proof. exact foreach_var_gone. Qed.
 Print Assumptions C14_foreach_var_gone.
 
-(* call: the arguments are readable at the arguments path inside (single key or dotted) ... *)
+(* call: the arguments, rendered against the data as it is when the call starts, are readable at
+   the arguments path inside (single key or dotted) ... *)
 Theorem C14_call_args_visible : forall ap args data,
-  ap <> ""%string -> lookup ap (Con (add_value_at ap (args_doc args) data)) = Some (args_doc args).
+  ap <> ""%string -> lookup ap (Con (add_value_at ap (args_doc args data) data)) = Some (args_doc args data).
 Proof. exact call_args_visible. Qed.
 Print Assumptions C14_call_args_visible.
 
 (* ... the callee runs on exactly that data, and whatever it returns the arguments are then removed *)
 Theorem C14_call_spec : forall rec rec_do bound run_ops_of name ap args st spec,
   reg_get name (st_reg st) = Some spec ->
-  let st1 := with_data (add_value_at ap (args_doc args) (st_data st)) st in
+  let st1 := with_data (add_value_at ap (args_doc args (st_data st)) (st_data st)) st in
   run_op rec rec_do bound run_ops_of (OpCall name ap args) st =
     (with_data (remove_at ap (st_data (fst (rec spec st1)))) (fst (rec spec st1)), snd (rec spec st1)).
 Proof. exact call_spec. Qed.
